@@ -309,13 +309,10 @@ def w_ops(tier='quick', headers=0, other_ns=False):
         hparts.append((['auth', 'trace'][i], 'tns:' + hn))
     els += hdr_els
     req_ref = smap(lambda e: 'tns:' + e, eln.sym())
-    if headers == 0:
-        parts_attr = Selector('parts_attr', [ABSENT, 'yes'])
-        sels.append(parts_attr)
-        bparts = Opt(partn.sym(), parts_attr.var != 0)
-    else:
-        parts_attr = None
-        bparts = partn
+    # soap:body with or without parts=; without it the body is made of the message parts that no soap:header binds
+    parts_attr = Selector('parts_attr', [ABSENT, 'yes'])
+    sels.append(parts_attr)
+    bparts = Opt(partn.sym(), parts_attr.var != 0)
     in_parts = [(partn, req_ref)] + hparts
     msgs = [Msg('GetQuoteIn', in_parts), Msg('GetQuoteOut', [('parameters', 'tns:GetQuoteResponse')]),
             Msg('PingIn', [('parameters', 'tns:PingRequest')]), Msg('PingOut', [('parameters', 'tns:PingResponse')])]
